@@ -1096,7 +1096,11 @@ class Tensor:
 
         _uniques_bases_then_arrs = ()
 
-        if len(input_vars) > 1 and any(type(var) in _PY_SCALARS for var in input_vars):
+        if (
+            Op.weak_python_scalars
+            and len(input_vars) > 1
+            and any(type(var) in _PY_SCALARS for var in input_vars)
+        ):
             # NumPy treats Python scalars as "weak" during type promotion
             # (e.g. `float32_array * 2.0` is float32); casting them to arrays of
             # their default dtypes would lose this, so cast them to the dtype that
